@@ -7,6 +7,7 @@ import (
 	"os"
 	"sort"
 	"strings"
+	"sync"
 	"testing"
 	"time"
 
@@ -18,22 +19,31 @@ import (
 
 // Step is one action against the running daemon.
 type Step struct {
-	Kind   string `json:"kind"`   // attest | attests | propose | sign | multisign | list | lock | unlock | create | restart-kill | restart-term
-	Client string `json:"client"` // alice | bob | carol (no permissions) | mallory (certificate from another authority) | none (no certificate)
-	Accs   []int  `json:"accs,omitempty"`
-	ByKey  bool   `json:"by_key,omitempty"`
-	Src    uint64 `json:"src,omitempty"`
-	Tgt    uint64 `json:"tgt,omitempty"`
-	Slot   uint64 `json:"slot,omitempty"`
-	Root   int    `json:"root,omitempty"`
-	Dom    string `json:"dom,omitempty"` // own (the endpoint's proper type) | generic | attester | proposer | exit
+	Kind string `json:"kind"` // attest | attests | propose | sign | multisign | list | lock | unlock | create | restart-kill | restart-term
+	// Client: alice | bob | carol (no permissions) - certificates from the configured authority; mallory (the name alice on a
+	// certificate from another authority) | trudy (self-signed, named alice) | servant (named alice, signed with the server's
+	// own certificate key) | none (no certificate); nocn (from the configured authority, empty subject, DNS name alice) |
+	// longcn (from the configured authority, a 200-character name) | nosubject (from the configured authority, empty subject, no
+	// alternative names) | carol+alice (carol's certificate and key with alice's certificate appended to the presented chain)
+	Client string `json:"client"`
+	// Spoof: the caller adds metadata naming alice and an administrator address (nothing lets such claims count)
+	Spoof bool   `json:"spoof,omitempty"`
+	Accs  []int  `json:"accs,omitempty"`
+	ByKey bool   `json:"by_key,omitempty"`
+	Src   uint64 `json:"src,omitempty"`
+	Tgt   uint64 `json:"tgt,omitempty"`
+	Slot  uint64 `json:"slot,omitempty"`
+	Root  int    `json:"root,omitempty"`
+	Dom   string `json:"dom,omitempty"` // own (the endpoint's proper type) | generic | attester | proposer | exit
 }
 
 // Case is a daemon configuration and a history.
 type Case struct {
 	AdminIPs []string                       `json:"admin_ips"`
 	Perms    map[string]map[string][]string `json:"permissions"`
-	Steps    []Step                         `json:"steps"`
+	// RelStorage: relative storage-path, and every start of the daemon from another working directory
+	RelStorage bool   `json:"relative_storage_path,omitempty"`
+	Steps      []Step `json:"steps"`
 }
 
 func root(a uint64, s byte) []byte {
@@ -121,7 +131,7 @@ type result struct {
 }
 
 func run(c *Case, only string) (*outcome, *vkit.Violation, error) {
-	d, err := NewDaemon(&Config{AdminIPs: c.AdminIPs, Permissions: c.Perms})
+	d, err := NewDaemon(&Config{AdminIPs: c.AdminIPs, Permissions: c.Perms, RelStorage: c.RelStorage})
 	if err != nil {
 		return nil, nil, err
 	}
@@ -139,6 +149,7 @@ func run(c *Case, only string) (*outcome, *vkit.Violation, error) {
 	}
 	restartedSince := map[string]bool{}
 	created := map[string]string{} // wallet/name -> hex public key, accounts created through the daemon
+	var dyn []*vkit.AccountInfo
 	var viol *vkit.Violation
 	report := func(kind string, format string, args ...any) {
 		if viol != nil {
@@ -165,20 +176,62 @@ func run(c *Case, only string) (*outcome, *vkit.Violation, error) {
 
 			continue
 		}
-		cn, foreign := s.Client, false
-		switch s.Client {
-		case "mallory":
-			cn, foreign = "alice", true // a permitted name on a certificate from another authority
-		case "none":
-			cn = ""
+		if s.Kind == "burst" {
+			// several callers, some never seen before, at the same moment: only survival is judged
+			var wg sync.WaitGroup
+			for bi, cl := range []string{"alice", "bob", "carol", fmt.Sprintf("dave%d", si), fmt.Sprintf("erin%d", si), "nocn", "longcn", "mallory"} {
+				wg.Add(1)
+				go func(bi int, cl string) {
+					defer wg.Done()
+					cr, ok := credOf(cl)
+					if !ok && cl != "mallory" {
+						cr = Cred{CN: cl, Issuer: "ca"}
+					}
+					if bi%2 == 0 {
+						_ = d.Invoke(cr, "/v1.Lister/ListAccounts", &pb.ListAccountsRequest{Paths: []string{WA, WB, WC}}, &pb.ListAccountsResponse{})
+					} else {
+						_ = d.Invoke(cr, "/v1.Signer/Sign", &pb.SignRequest{Id: &pb.SignRequest_Account{Account: WA + "/a"}, Data: root(uint64(si), 7), Domain: domain("generic", "sign")}, &pb.SignResponse{})
+					}
+				}(bi, cl)
+			}
+			wg.Wait()
+			o.trace = append(o.trace, "burst")
+			if !d.Alive() {
+				report("daemon-died", "%s: the daemon process is gone after a burst of simultaneous first requests: %s", where, d.Logs())
+				if viol != nil {
+					return o, viol, nil
+				}
+
+				return o, nil, fmt.Errorf("%s: daemon died: %s", where, d.Logs())
+			}
+
+			continue
 		}
-		trusted := s.Client == "alice" || s.Client == "bob" || s.Client == "carol"
+		cred, trusted := credOf(s.Client)
+		named := s.Client == "alice" || s.Client == "bob" || s.Client == "carol" || s.Client == "carol+alice"
+		who := cred.CN // the name permission decisions must use for a caller with a certificate from the authority
+		var md []string
+		if s.Spoof {
+			md = []string{"client-name", "alice", "x-client-name", "alice", "x-forwarded-for", "10.1.2.3", "x-real-ip", "10.1.2.3", "x-forwarded-client-cert", "Subject=\"CN=alice\""}
+		}
 		if !trusted {
 			o.foreign++
 		}
-		accs := make([]*vkit.AccountInfo, len(s.Accs))
-		for i, ai := range s.Accs {
-			accs[i] = world.Accounts[ai%len(world.Accounts)]
+		var accs []*vkit.AccountInfo
+		taken := map[string]bool{}
+		for _, ai := range s.Accs {
+			// indices past the fixture's accounts address accounts created through the daemon, once there are any
+			var a *vkit.AccountInfo
+			if nb := len(world.Accounts); ai >= nb && len(dyn) > 0 {
+				a = dyn[(ai-nb)%len(dyn)]
+			} else {
+				a = world.Accounts[ai%nb]
+			}
+			if taken[a.Path()] {
+				continue // one request never names an account twice here (Dirk refuses such a batch as a whole)
+			}
+			taken[a.Path()] = true
+			accs = append(accs, a)
 		}
 		var results []result
 		var rpcErr error
@@ -197,7 +250,7 @@ func run(c *Case, only string) (*outcome, *vkit.Violation, error) {
 			}
 			if s.Kind == "attest" {
 				resp := &pb.SignResponse{}
-				rpcErr = d.Invoke(cn, foreign, "/v1.Signer/SignBeaconAttestation", mk(accs[0]), resp)
+				rpcErr = d.Invoke(cred, "/v1.Signer/SignBeaconAttestation", mk(accs[0]), resp, md...)
 				results = []result{{resp.GetState().String(), resp.GetSignature()}}
 			} else {
 				req := &pb.SignBeaconAttestationsRequest{}
@@ -205,7 +258,7 @@ func run(c *Case, only string) (*outcome, *vkit.Violation, error) {
 					req.Requests = append(req.Requests, mk(a))
 				}
 				resp := &pb.MultisignResponse{}
-				rpcErr = d.Invoke(cn, foreign, "/v1.Signer/SignBeaconAttestations", req, resp)
+				rpcErr = d.Invoke(cred, "/v1.Signer/SignBeaconAttestations", req, resp, md...)
 				for _, r := range resp.GetResponses() {
 					results = append(results, result{r.GetState().String(), r.GetSignature()})
 				}
@@ -218,7 +271,7 @@ func run(c *Case, only string) (*outcome, *vkit.Violation, error) {
 				r.Id = &pb.SignBeaconProposalRequest_Account{Account: accs[0].Path()}
 			}
 			resp := &pb.SignResponse{}
-			rpcErr = d.Invoke(cn, foreign, "/v1.Signer/SignBeaconProposal", r, resp)
+			rpcErr = d.Invoke(cred, "/v1.Signer/SignBeaconProposal", r, resp, md...)
 			results = []result{{resp.GetState().String(), resp.GetSignature()}}
 		case "sign", "multisign":
 			mk := func(a *vkit.AccountInfo) *pb.SignRequest {
@@ -233,7 +286,7 @@ func run(c *Case, only string) (*outcome, *vkit.Violation, error) {
 			}
 			if s.Kind == "sign" {
 				resp := &pb.SignResponse{}
-				rpcErr = d.Invoke(cn, foreign, "/v1.Signer/Sign", mk(accs[0]), resp)
+				rpcErr = d.Invoke(cred, "/v1.Signer/Sign", mk(accs[0]), resp, md...)
 				results = []result{{resp.GetState().String(), resp.GetSignature()}}
 			} else {
 				req := &pb.MultisignRequest{}
@@ -241,7 +294,7 @@ func run(c *Case, only string) (*outcome, *vkit.Violation, error) {
 					req.Requests = append(req.Requests, mk(a))
 				}
 				resp := &pb.MultisignResponse{}
-				rpcErr = d.Invoke(cn, foreign, "/v1.Signer/Multisign", req, resp)
+				rpcErr = d.Invoke(cred, "/v1.Signer/Multisign", req, resp, md...)
 				for _, r := range resp.GetResponses() {
 					results = append(results, result{r.GetState().String(), r.GetSignature()})
 				}
@@ -254,16 +307,16 @@ func run(c *Case, only string) (*outcome, *vkit.Violation, error) {
 			switch s.Kind {
 			case "lock":
 				resp := &pb.LockAccountResponse{}
-				rpcErr = d.Invoke(cn, foreign, "/v1.AccountManager/Lock", &pb.LockAccountRequest{Account: a.Path()}, resp)
+				rpcErr = d.Invoke(cred, "/v1.AccountManager/Lock", &pb.LockAccountRequest{Account: a.Path()}, resp, md...)
 				state, op, target = resp.GetState().String(), "Lock account", a.Name
 			case "unlock":
 				resp := &pb.UnlockAccountResponse{}
-				rpcErr = d.Invoke(cn, foreign, "/v1.AccountManager/Unlock", &pb.UnlockAccountRequest{Account: a.Path(), Passphrase: []byte(vkit.DefaultPassphrase)}, resp)
+				rpcErr = d.Invoke(cred, "/v1.AccountManager/Unlock", &pb.UnlockAccountRequest{Account: a.Path(), Passphrase: []byte(vkit.DefaultPassphrase)}, resp, md...)
 				state, op, target = resp.GetState().String(), "Unlock account", a.Name
 			default:
 				target = fmt.Sprintf("made%d", si)
 				resp := &pb.GenerateResponse{}
-				rpcErr = d.Invoke(cn, foreign, "/v1.AccountManager/Generate", &pb.GenerateRequest{Account: a.Wallet + "/" + target, Passphrase: []byte(vkit.DefaultPassphrase), Participants: 1, SigningThreshold: 1}, resp)
+				rpcErr = d.Invoke(cred, "/v1.AccountManager/Generate", &pb.GenerateRequest{Account: a.Wallet + "/" + target, Passphrase: []byte(vkit.DefaultPassphrase), Participants: 1, SigningThreshold: 1}, resp, md...)
 				state, op, pub = resp.GetState().String(), "Create account", resp.GetPublicKey()
 			}
 			o.trace = append(o.trace, fmt.Sprintf("%s %s %s/%s -> %s err=%v", s.Kind, s.Client, a.Wallet, target, state, rpcErr != nil))
@@ -271,13 +324,14 @@ func run(c *Case, only string) (*outcome, *vkit.Violation, error) {
 			switch {
 			case !trusted && ok:
 				report("served-without-ca-certificate", "%s: %s on %s/%s succeeded for a caller without a certificate from the configured authority", where, op, a.Wallet, target)
-			case trusted && rpcErr != nil:
+			case trusted && rpcErr != nil && named:
 				return o, nil, fmt.Errorf("%s: transport error for a trusted client: %v: %s", where, rpcErr, d.Logs())
-			case ok && !pc.Allowed(s.Client, a.Wallet, target, op):
+			case ok && !pc.Allowed(who, a.Wallet, target, op):
 				report("managed-without-permission", "%s: %q on %s/%s succeeded although the permissions of %s refuse it", where, op, a.Wallet, target, s.Client)
 			}
 			if ok && s.Kind == "create" {
 				created[a.Wallet+"/"+target] = fmt.Sprintf("%x", pub)
+				dyn = append(dyn, &vkit.AccountInfo{Wallet: a.Wallet, Name: target, PubKey: pub})
 				o.created++
 			}
 			if ok {
@@ -285,7 +339,7 @@ func run(c *Case, only string) (*outcome, *vkit.Violation, error) {
 			}
 		case "list":
 			resp := &pb.ListAccountsResponse{}
-			rpcErr = d.Invoke(cn, foreign, "/v1.Lister/ListAccounts", &pb.ListAccountsRequest{Paths: []string{WA, WB}}, resp)
+			rpcErr = d.Invoke(cred, "/v1.Lister/ListAccounts", &pb.ListAccountsRequest{Paths: []string{WA, WB, WC}}, resp, md...)
 			got := map[string]string{}
 			for _, a := range resp.GetAccounts() {
 				got[a.GetName()] = fmt.Sprintf("%x", a.GetPublicKey())
@@ -298,13 +352,16 @@ func run(c *Case, only string) (*outcome, *vkit.Violation, error) {
 
 				break
 			}
+			if rpcErr != nil && !named {
+				break // a certificate of the authority with an odd subject may be turned away with an error
+			}
 			if rpcErr != nil {
 				return o, nil, fmt.Errorf("%s: transport error for a trusted client: %v: %s", where, rpcErr, d.Logs())
 			}
 			o.listed++
 			for path, pk := range created {
 				i := strings.Index(path, "/")
-				want := pc.Allowed(s.Client, path[:i], path[i+1:], "Access account")
+				want := pc.Allowed(who, path[:i], path[i+1:], "Access account")
 				gpk, have := got[path]
 				switch {
 				case want && !have:
@@ -325,7 +382,7 @@ func run(c *Case, only string) (*outcome, *vkit.Violation, error) {
 				}
 			}
 			for _, a := range world.Accounts {
-				want := pc.Allowed(s.Client, a.Wallet, a.Name, "Access account")
+				want := pc.Allowed(who, a.Wallet, a.Name, "Access account")
 				pk, have := got[a.Path()]
 				switch {
 				case want && !have:
@@ -369,6 +426,9 @@ func run(c *Case, only string) (*outcome, *vkit.Violation, error) {
 
 			continue
 		}
+		if rpcErr != nil && !named {
+			continue // a certificate of the authority with an odd subject may be turned away with an error
+		}
 		if rpcErr != nil {
 			return o, nil, fmt.Errorf("%s: transport error for a trusted client: %v: %s", where, rpcErr, d.Logs())
 		}
@@ -390,7 +450,7 @@ func run(c *Case, only string) (*outcome, *vkit.Violation, error) {
 			case "propose":
 				op = "Sign beacon proposal"
 			}
-			if !pc.Allowed(s.Client, a.Wallet, a.Name, op) {
+			if !pc.Allowed(who, a.Wallet, a.Name, op) {
 				allAllowed = false
 			}
 		}
@@ -425,7 +485,7 @@ func run(c *Case, only string) (*outcome, *vkit.Violation, error) {
 				sigRoot = vkit.SigningRoot(d32, dom)
 				properDomain = dom[0] != 0 && dom[0] != 1 && (dom[0] != 4 || adminLocal)
 			}
-			allowed := pc.Allowed(s.Client, a.Wallet, a.Name, op)
+			allowed := pc.Allowed(who, a.Wallet, a.Name, op)
 			// what the slashing rules say, on the model
 			if att != nil && properDomain && allowed {
 				slashOK = model.AttVerdict(key, att)
@@ -485,14 +545,37 @@ func run(c *Case, only string) (*outcome, *vkit.Violation, error) {
 
 var focusOps = []string{"Sign", "Sign beacon attestation", "Sign beacon proposal", "Access account", "Access account", "Lock account", "Unlock account", "Create account"}
 
-var clientsAll = []string{"alice", "alice", "alice", "bob", "bob", "carol", "mallory", "none"}
+func credOf(client string) (Cred, bool) {
+	switch client {
+	case "alice", "bob", "carol":
+		return Cred{CN: client, Issuer: "ca"}, true
+	case "nocn":
+		return Cred{CN: "", Issuer: "ca", DNS: []string{"alice"}}, true
+	case "longcn":
+		return Cred{CN: strings.Repeat("alice", 40), Issuer: "ca"}, true
+	case "mallory":
+		return Cred{CN: "alice", Issuer: "other"}, false
+	case "trudy":
+		return Cred{CN: "alice", Issuer: "self"}, false
+	case "servant":
+		return Cred{CN: "alice", Issuer: "server"}, false
+	case "nosubject":
+		return Cred{CN: "", Issuer: "ca"}, true
+	case "carol+alice": // carol's own certificate and key, with alice's certificate appended to the chain
+		return Cred{CN: "carol", Issuer: "ca", Append: "cn:alice"}, true
+	}
+
+	return Cred{}, false
+}
+
+var clientsAll = []string{"alice", "alice", "alice", "alice", "bob", "bob", "carol", "mallory", "none", "trudy", "servant", "nocn", "longcn", "nosubject", "carol+alice", "carol+alice"}
 
 func genPerms(t *rapid.T) map[string]map[string][]string {
 	out := map[string]map[string][]string{}
-	accounts := map[string][]string{WA: {"a", "b"}, WB: {"a", "c"}}
+	accounts := map[string][]string{WA: {"a", "b"}, WB: {"a", "c"}, WC: {"a"}}
 	for _, client := range []string{"alice", "bob"} {
 		m := map[string][]string{}
-		for _, w := range []string{WA, WB} {
+		for _, w := range []string{WA, WB, WC} {
 			kind := rapid.IntRange(0, 3).Draw(t, "entry_kind")
 			if client == "alice" && rapid.Bool().Draw(t, "alice_all") {
 				kind = 1
@@ -523,7 +606,7 @@ func genPerms(t *rapid.T) map[string]map[string][]string {
 }
 
 func genCase(t *rapid.T) *Case {
-	c := &Case{AdminIPs: rapid.SampledFrom([][]string{{}, {"127.0.0.1"}, {"10.1.2.3"}, {"10.1.2.3", "127.0.0.1"}, {"127.0.0.11"}}).Draw(t, "admin_ips"), Perms: genPerms(t)}
+	c := &Case{AdminIPs: rapid.SampledFrom([][]string{{}, {"127.0.0.1"}, {"10.1.2.3"}, {"10.1.2.3", "127.0.0.1"}, {"127.0.0.11"}}).Draw(t, "admin_ips"), Perms: genPerms(t), RelStorage: rapid.IntRange(0, 2).Draw(t, "rel_storage") == 0}
 	type fl struct{ src, tgt, slot int64 }
 	floors := map[int]*fl{}
 	floor := func(k int) *fl {
@@ -536,15 +619,15 @@ func genCase(t *rapid.T) *Case {
 	n := rapid.IntRange(3, 12).Draw(t, "nsteps")
 	for i := 0; i < n; i++ {
 		k := rapid.IntRange(0, 99).Draw(t, "kind")
-		s := Step{Client: rapid.SampledFrom(clientsAll).Draw(t, "client"), ByKey: rapid.Bool().Draw(t, "bykey"), Root: rapid.IntRange(0, 2).Draw(t, "root"), Dom: "own"}
-		acc := rapid.IntRange(0, 3).Draw(t, "acc")
+		s := Step{Client: rapid.SampledFrom(clientsAll).Draw(t, "client"), ByKey: rapid.Bool().Draw(t, "bykey"), Root: rapid.IntRange(0, 2).Draw(t, "root"), Dom: "own", Spoof: rapid.IntRange(0, 3).Draw(t, "spoof") == 0}
+		acc := rapid.IntRange(0, 6).Draw(t, "acc")
 		f := floor(acc)
 		switch {
 		case k < 30:
 			s.Kind, s.Accs = "attest", []int{acc}
 		case k < 45:
 			s.Kind = "attests"
-			s.Accs = rapid.Permutation([]int{0, 1, 2, 3}).Draw(t, "accs")[:rapid.IntRange(2, 4).Draw(t, "nacc")]
+			s.Accs = rapid.Permutation([]int{0, 1, 2, 3, 4, 5}).Draw(t, "accs")[:rapid.IntRange(2, 5).Draw(t, "nacc")]
 			f = floor(s.Accs[0])
 		case k < 62:
 			s.Kind, s.Accs = "propose", []int{acc}
@@ -552,12 +635,14 @@ func genCase(t *rapid.T) *Case {
 			s.Kind, s.Accs = "sign", []int{acc}
 		case k < 79:
 			s.Kind = "multisign"
-			s.Accs = rapid.Permutation([]int{0, 1, 2, 3}).Draw(t, "accs")[:rapid.IntRange(2, 4).Draw(t, "nacc")]
+			s.Accs = rapid.Permutation([]int{0, 1, 2, 3, 4, 5}).Draw(t, "accs")[:rapid.IntRange(2, 5).Draw(t, "nacc")]
 		case k < 84:
 			s.Kind, s.Accs = rapid.SampledFrom([]string{"lock", "unlock", "create", "create"}).Draw(t, "manage"), []int{acc}
 		case k < 92:
 			s.Kind = "list"
-		case k < 97:
+		case k < 94:
+			s.Kind = "burst"
+		case k < 98:
 			s.Kind = "restart-kill"
 		default:
 			s.Kind = "restart-term"
